@@ -134,11 +134,8 @@ def renderOutputs (l : List (Addr × Int)) : String :=
 /-- the burn address `recordBatch` compares transfer outputs with -/
 def burnAddrAt (P : Params) (h : Nat) : Addr := if h ≥ P.act.v202 then P.burnAddr else P.zeroAddr
 
-def recordTx (P : Params) (h : Nat) (hash : Hash) (rates avgs : Option TMap) (idx : Nat) (t : Tx) : LM Unit := do
-  let ok ← subBal P t.inAddr t.inType t.inAmount
-  if !ok then M.throw (.uncaught "insufficient balance")
-  insertRelation hash t.inAddr idx false (t.isConversion P)
-  setExecuted hash h
+/-- the output side of one recorded transaction (sync.go:1151-1206) -/
+def recordOutputs (P : Params) (h : Nat) (hash : Hash) (rates avgs : Option TMap) (idx : Nat) (t : Tx) : LM Unit :=
   let r := rates.getD []
   let a := avgs.getD []
   if h ≥ P.act.convLimit ∧ t.isPEGRequest then
@@ -156,6 +153,14 @@ def recordTx (P : Params) (h : Nat) (hash : Hash) (rates avgs : Option TMap) (id
       if tr.addr == burnAddrAt P h then pure () else do
         addBal P tr.addr t.inType tr.amount
         insertRelation hash tr.addr idx true false
+
+def recordTx (P : Params) (h : Nat) (hash : Hash) (rates avgs : Option TMap) (idx : Nat) (t : Tx) : LM Unit := do
+  let ok ← subBal P t.inAddr t.inType t.inAmount
+  if !ok then M.throw (.uncaught "insufficient balance")
+  else do
+    insertRelation hash t.inAddr idx false (t.isConversion P)
+    setExecuted hash h
+    recordOutputs P h hash rates avgs idx t
 
 def recordBatch (P : Params) (h : Nat) (hash : Hash) (rates avgs : Option TMap) (txs : List Tx) : LM Unit :=
   M.forEachIdx txs (recordTx P h hash rates avgs)
